@@ -16,6 +16,7 @@ import (
 	"fmt"
 	"math/rand"
 	"os"
+	"strings"
 	"sync"
 	"time"
 
@@ -481,6 +482,9 @@ func runUdpSize(cs string) string {
 	size, k := atoi(m["size"]), atoi(m["k"])
 	seq := atoi(m["seq"])
 	name := wireLabels([]byte(fmt.Sprintf("big%d", k)), []byte(fmt.Sprintf("u%d", seq)))
+	if pad := atoi(m["pad"]); pad > 0 { // a longer question shifts where the record boundaries fall relative to the limit
+		name = wireLabels([]byte(fmt.Sprintf("big%d", k)), []byte(fmt.Sprintf("u%d", seq)), []byte(strings.Repeat("x", pad)))
+	}
 	id := uint16(seq*17 + 3)
 	res := lfix.exchange("udp", buildQuery(id, name, 16, withOpt, size), "-", 2*time.Second)
 	if res.status != "resp" {
@@ -518,6 +522,8 @@ func genUdpSize(r *rand.Rand, thorough bool, emit func(c, cat string)) {
 	}
 	for _, size := range []int{65535, 65508, 65507, 65000} { // around the largest UDP payload
 		emit(fmt.Sprintf("opt=1 size=%d k=%d seq=%d", size, 570+r.Intn(140), r.Intn(1000000)), "opt1-huge")
+		// with a 63-octet label in the question a whole number of records ends between 65508 and 65535
+		emit(fmt.Sprintf("opt=1 size=%d k=%d seq=%d pad=63", size, 590+r.Intn(100), 100000+r.Intn(900000)), "opt1-huge")
 		if !thorough {
 			break
 		}
